@@ -682,6 +682,20 @@ func checkC11(c *Ctx) {
 		pfx := ""
 		if r.Chance(40) {
 			pfx = []string{"APP", "MY_SVC", "x"}[r.Intn(3)]
+			if r.Chance(30) {
+				// the prefix equals the first word of some leaf's own name: the variable is still PREFIX_<name>,
+				// i.e. it spells the word twice
+				l := g.leaves[r.Intn(len(g.leaves))]
+				first := ""
+				if l.envTag != "" {
+					first = strings.SplitN(l.envTag, "_", 2)[0]
+				} else if len(l.words) > 0 {
+					first = strings.ToUpper(l.words[0])
+				}
+				if first != "" && !strings.ContainsAny(first, "=\x00") {
+					pfx = first
+				}
+			}
 		}
 		cs := map[string]any{"type": T.String(), "prefix": pfx}
 		// names: model vs documentation
@@ -738,6 +752,9 @@ func checkC11(c *Ctx) {
 			l := g.leaves[r.Intn(len(g.leaves))]
 			dn := docName(l)
 			decoy := []string{strings.ToLower(dn), dn + "_X", "OTHER_" + dn, strings.ReplaceAll(dn, "_", "")}[r.Intn(4)]
+			if pfx != "" && r.Chance(40) {
+				decoy = strings.TrimPrefix(dn, pfx+"_") // the name without its prefix names no leaf
+			}
 			if _, clash := set[decoy]; !clash && decoy != dn {
 				isDoc := false
 				for _, l2 := range g.leaves {
